@@ -140,6 +140,8 @@ def run(chk, tier):
         # tuples (and maps, described as [(K, V)]) go through TypeDefTuple::new: it keeps every non-PhantomData member, in order
         from . import c17
         c17.phantom(chk, prog, cfg)
+        # each instantiation is described by its own evaluation of type_info: no cache shared between instantiations
+        cr.check_stateless(chk, prog, cfg, rule="R4.6")
     chk.rule("R4.5", "every built-in type the property names has type info at all: witness programs instantiate TypeInfo for the inventory "
              "(tuples up to arity 20, arrays, NonZero*, collections, pointers and references to unsized pointees) and must type-check")
     from ..lib import witness
